@@ -197,8 +197,9 @@ def c12(tier, seed):
             mc = (0, False)
             taus = quick_taus
         else:
-            plan = [('bfs', 2, False, ['A']), ('bfs', 1, True, ['E', 'I']), ('sim', 'num=40', 5, True, ['E', 'I', 'A'])]
-            mc = (1, False)
+            # depth-2 BFS would give ~14k cases x up to 400 corruptions (GBs of trace): deeper nestings by simulation
+            plan = [('bfs', 1, True, ['A', 'E', 'I']), ('sim', 'num=30', 5, True, ['E', 'I', 'A'])]
+            mc = (0, True)
             taus = all_taus
 
         # (M) the transition system itself: every reachable corrupt state is applicable and its expected
